@@ -40,11 +40,16 @@ func (k *impostorKey) ECDH(pub *btcec.PublicKey) ([32]byte, error) {
 type hsParams struct {
 	cliKey, srvKey       *btcec.PrivateKey
 	cliECDH              keychain.SingleKeyECDH // overrides ecdhKey(cliKey) if set
-	cliRemote, srvRemote *btcec.PublicKey // expected remote keys (KK) or nil (XX)
+	cliRemote, srvRemote *btcec.PublicKey       // expected remote keys (KK) or nil (XX)
 	cliEnt, srvEnt       []byte
 	auth                 []byte
-	cMin, cMax           byte
-	sMin, sMax           byte
+	// cliStale: auth data the initiator's connection data still holds from
+	// an earlier connection (the ConnData object is reused for every
+	// connection of a session)
+	cliStale   []byte
+	cliEphGen  func() (*btcec.PrivateKey, error) // initiator's ephemeral keys (nil: random)
+	cMin, cMax byte
+	sMin, sMax byte
 }
 
 func defaultHs() hsParams {
@@ -68,12 +73,12 @@ func runMachines(p hsParams, cRW, sRW io.ReadWriter) hsResult {
 	if p.cliECDH != nil {
 		ck = p.cliECDH
 	}
-	res.cd = mailbox.NewConnData(ck, p.cliRemote, p.cliEnt, nil, nil, nil)
+	res.cd = mailbox.NewConnData(ck, p.cliRemote, p.cliEnt, p.cliStale, nil, nil)
 	res.sd = mailbox.NewConnData(ecdhKey(p.srvKey), p.srvRemote, p.srvEnt, p.auth, nil, nil)
 	var err error
 	res.cm, err = mailbox.NewBrontideMachine(&mailbox.BrontideMachineConfig{
 		ConnData: res.cd, Initiator: true, HandshakePattern: res.cd.HandshakePattern(),
-		MinHandshakeVersion: p.cMin, MaxHandshakeVersion: p.cMax})
+		MinHandshakeVersion: p.cMin, MaxHandshakeVersion: p.cMax, EphemeralGen: p.cliEphGen})
 	if err != nil {
 		res.newErr = err
 		return res
